@@ -357,7 +357,7 @@ def duplicates(h):
     self = h.obj(CL)
     rp = lambda ev: {"target": "verif_replays:duplicate_units_replay", "args": [], "check": "result['exc'] is None and result['ok']"}  # noqa: E731
     h.default_replay = rp
-    kind, env = h.slice(f"{CL}.get_estimates", first_assign="units_by_count", until_raise="ModelClientException", env={"self": self, "reporting_units": w})
+    kind, env = h.slice(f"{CL}.get_estimates", first_with_call="value_counts", until_raise="ModelClientException", env={"self": self, "reporting_units": w})
     kstar = z3.String("some_kept_id")
     dup_instance(w.w1(kstar), w.w2(kstar))
     if kind == "raise":
@@ -365,3 +365,22 @@ def duplicates(h):
         h.ensures("raises_only_if_two_rows_share_an_id", dup, replay=rp)
     else:
         h.ensures("passes_only_if_all_reporting_unit_ids_are_different", z3.Not(dup), replay=rp)
+
+
+@unit("C14", "gate.reporting_rows_reach_the_duplicate_check_with_their_repetitions", fns=["elexmodel.handlers.data.CombinedData.CombinedDataHandler.get_units", "elexmodel.handlers.data.CombinedData.CombinedDataHandler._get_non_modeled_units"])
+def reporting_rows_keep_their_repetitions(h):
+    """the duplicate check of get_estimates (unit above) sees what get_units hands over: on every path of the REAL get_units
+    the reporting frame must not have been through a de-duplicating operation.  The frame theory works under V1 (the ids of
+    one base table are different), where drop_duplicates changes nothing -- so each frame carries a ghost mark of the
+    de-duplicating operations its rows went through, and this clause (which is about the inputs V1 excludes) asks for the
+    mark to be empty; the replay runs the real client on a feed with a repeated reporting id."""
+    import contracts.C09 as c09
+
+    rp = lambda ev: {"target": "verif_replays:duplicate_units_replay", "args": [], "check": "result['exc'] is None and result['ok']"}  # noqa: E731
+    h.default_replay = rp
+    w, p, kind, res = c09.run_get_units(h, ["turnout"], ["postal_code", "unit"])
+    if kind == "raise":
+        return h.fail("no_raise", f"raised {res}")
+    rep_f = res[0]
+    marks = list(getattr(rep_f, "_dedup", None) or [])
+    h.ensures("no_deduplicating_operation_on_the_reporting_frame", z3.BoolVal(not marks), why=f"operations: {marks}", replay=rp, replay_decides=True)
